@@ -1597,3 +1597,44 @@ Proof.
   - pose proof (dag_atomic cfg s o W En Herr) as A. apply same_state_dlinks in A.
     destruct o; try discriminate; exact A.
 Qed.
+
+(* ------------------------------------------------------------------------------------------ *)
+(** * Soundness of the boolean well-formedness test (what a `true` on the implementation's state means) *)
+
+(* number of peeling rounds x survives *)
+Fixpoint surv (s : dag) (k : nat) (live : list id) (x : id) : nat :=
+  match k with
+  | 0 => 0
+  | S k' => if memb x live then S (surv s k' (peel s live) x) else 0
+  end.
+
+Lemma surv_rank : forall s k live p c, peel_n s k live = [] -> In c live -> In p (parents s c) ->
+  surv s k live p < surv s k live c.
+Proof.
+  intros s k. induction k as [|k IH]; intros live p c Hnil Hc Hp; cbn [peel_n] in Hnil.
+  - subst. destruct Hc.
+  - cbn [surv]. assert (Ec : memb c live = true) by (apply memb_In; exact Hc). rewrite Ec.
+    destruct (memb p live) eqn:Ep; [|lia].
+    apply -> Nat.succ_lt_mono. apply IH; [exact Hnil | | exact Hp].
+    unfold peel. apply filter_In. split; [exact Hc|]. apply existsb_exists. exists p. split; assumption.
+Qed.
+
+Theorem dwf_b_sound : forall s, dwf_b s = true ->
+  (forall x, x < dsize s ->
+     NoDup (parents s x) /\ NoDup (children s x)
+     /\ (forall p, In p (parents s x) -> p < dsize s /\ In x (children s p))
+     /\ (forall c, In c (children s x) -> c < dsize s /\ In x (parents s c)))
+  /\ exists r, forall p c, c < dsize s -> In p (parents s c) -> r p < r c.
+Proof.
+  intros s H. unfold dwf_b in H. apply andb_true_iff in H. destruct H as [Hl Ha]. split.
+  - intros x Hx. unfold dlinks_ok_b in Hl. rewrite forallb_forall in Hl.
+    specialize (Hl x ltac:(unfold dids; apply in_seq; lia)).
+    rewrite !andb_true_iff in Hl. destruct Hl as [[[H1 H2] H3] H4].
+    split; [apply nodupb_NoDup; exact H1|]. split; [apply nodupb_NoDup; exact H2|]. split.
+    + intros p Hp. rewrite forallb_forall in H3. specialize (H3 p Hp). apply andb_true_iff in H3.
+      destruct H3 as [G1 G2]. split; [apply Nat.ltb_lt; exact G1 | apply memb_In; exact G2].
+    + intros c Hc. rewrite forallb_forall in H4. specialize (H4 c Hc). apply andb_true_iff in H4.
+      destruct H4 as [G1 G2]. split; [apply Nat.ltb_lt; exact G1 | apply memb_In; exact G2].
+  - exists (surv s (dsize s) (dids (dsize s))). intros p c Hc Hp. apply surv_rank; [| unfold dids; apply in_seq; lia | exact Hp].
+    unfold acyclic_b in Ha. destruct (peel_n s (dsize s) (dids (dsize s))); [reflexivity | discriminate].
+Qed.
